@@ -14,7 +14,7 @@ func init() {
 }
 
 func ruleP7(p *Prog) *RuleResult {
-	res := newResult("P7", ruleDoc["P7"], 8)
+	res := newResult("P7", ruleDoc["P7"], 5)
 	fns := append([]*ssa.Function(nil), p.sourceFns()...)
 	sort.Slice(fns, func(i, j int) bool { return fname(fns[i]) < fname(fns[j]) })
 	isWG := func(c *ssa.CallCommon, name string) bool {
@@ -70,15 +70,7 @@ func ruleP7(p *Prog) *RuleResult {
 		if f.Blocks == nil {
 			continue
 		}
-		defersDone := false
-		for _, b := range f.Blocks {
-			for _, ins := range b.Instrs {
-				if d, ok := ins.(*ssa.Defer); ok && isWG(&d.Call, "Done") {
-					defersDone = true
-				}
-			}
-		}
-		if !defersDone {
+		if !deferredDone(f) {
 			continue
 		}
 		var sends []*ssa.Send
